@@ -231,6 +231,7 @@ Retain1Next == steps < MaxSteps /\
   \/ \E f \in {<<"a">>, <<"#">>}, q \in 0..2 : Subscribe(c2, 1, << <<f, q>> >>)
   \/ Unsubscribe(c2, 3, << <<"a">>, <<"#">> >>)
   \/ ApiSubscribe(L1, <<"a">>, 2) \/ ApiUnsubscribe(L1, <<"a">>)
+  \/ ApiSubscribeErr(L1, <<"a">>, 0)       \* an in-process subscriber at a lower QoS whose callback fails on the retained message
 Retain1Spec == BothUp({<<"a">>}) /\ [][Retain1Next]_vars
 
 \* all paths over a chain of topics: every history of storing and clearing retained messages on a topic, its
